@@ -311,9 +311,23 @@ def generate(rng, focus, tier="quick"):
             if kind == "clock_regress_pending" and rng.random() < 0.7:
                 # make sure something is pending in the youngest portfolio (the one with the latest clock)
                 emit({"k": "order", "pid": sh["pids"][-1], "asset": rng.choice(assets), "qty": {"v": _qty(rng)}})
+            elif kind == "clock_regress_pending" and len(sh["pids"]) > 1:
+                # ... or in any one portfolio whose clock has just been moved to "now" by a small transfer, while the
+                # other portfolios' clocks stay where they were
+                pid_ = rng.choice(sh["pids"])
+                emit({"k": "psub", "pid": pid_, "amt": {"v": rng.choice([0.0, 1.0, 250.0])}})
+                emit({"k": "order", "pid": pid_, "asset": rng.choice(assets), "qty": {"v": _qty(rng)}})
             stay = rng.random() < 0.5
-            op = {"k": "tick", "back": rng.choice([1, 60, 3600, 7 * 3600, DAY, 3 * DAY, 30 * DAY]),
-                  "stay": stay, "fault": kind}
+            back = rng.choice([1, 60, 3600, 7 * 3600, DAY, 3 * DAY, 30 * DAY])
+            if kind == "clock_regress_pending" and rng.random() < 0.5:
+                # land inside exchange hours (only there does a pending order make the step back illegal)
+                cand = sh["now"] - rng.choice([1, 60, 1800])
+                for _ in range(400):
+                    if is_open_ref(cand):
+                        break
+                    cand -= 1800
+                back = max(1, sh["now"] - cand)
+            op = {"k": "tick", "back": back, "stay": stay, "fault": kind}
             if stay and rng.random() < 0.7:
                 # life goes on on the regressed clock: transfers, orders and small forward steps from there,
                 # so that portfolio clocks lie in the future of the broker clock
